@@ -29,16 +29,16 @@ pub fn take_ic_events() -> Vec<String> {
 
 thread_local! {
     static PROBE_ON: Cell<bool> = const { Cell::new(false) };
-    static PROBE: RefCell<Vec<(u64, u32, u32, u32, u32)>> = const { RefCell::new(Vec::new()) };
+    static PROBE: RefCell<Vec<(u64, u32, u32, u32, u32, u32)>> = const { RefCell::new(Vec::new()) };
 }
 
 /// Record, before every executed instruction, `(code block debug id, pc, temporaries on the value stack above
-/// the register file, environments above env_fp, pending binding references)`.
+/// the register file, environments above env_fp, pending binding references, env_fp)`.
 pub fn set_probe(on: bool) {
     PROBE_ON.with(|c| c.set(on));
 }
 
-pub fn take_probe() -> Vec<(u64, u32, u32, u32, u32)> {
+pub fn take_probe() -> Vec<(u64, u32, u32, u32, u32, u32)> {
     PROBE.with(|p| std::mem::take(&mut *p.borrow_mut()))
 }
 
@@ -57,6 +57,7 @@ pub(crate) fn probe_instruction(context: &crate::Context) {
         temps,
         envs,
         frame.binding_stack.len() as u32,
+        frame.env_fp,
     );
     PROBE.with(|p| {
         let mut p = p.borrow_mut();
